@@ -347,6 +347,35 @@ theorem C03_observational_outputs (V : View α) (c : Codec τ) (emb : Emb δ) (s
         exact congrArg (some _ :: ·) ih'
   exact key [] hops hin
 
+/- the loaded model and the original are `Alike`: same current inputs, the whole cell map built, invariant -/
+theorem C03_alike (V : View α) (c : Codec τ) (emb : Emb δ) (stem : List Char) (r : List Key) (m : Model δ)
+    (H : Savable c m.cells) (hwf : WF (wbOf V (cmOf m))) (hl : Local (wbOf V (cmOf m)) (semOf V (cmOf m)))
+    (s : State α) (hinv : Inv (wbOf V (cmOf m)) (semOf V (cmOf m)) s)
+    (hinp : s.inp = inpOf V (cmOf m)) (hbuilt : ∀ k, k < V.n → s.built k = true) :
+    Alike (wbOf V (cmOf m)) (semOf V (cmOf m)) (loadedState V (reload c emb stem r m)) s := by
+  have L := C03_loaded_inv V c emb stem r m H hwf hl
+  exact ⟨L.1, hinv, L.2.1.trans hinp.symm, L.2.2, hbuilt⟩
+
+/- the same for histories that also use the list forms of the public API — `set_value(<range | list of cells>,
+   [v…])` (`setMany`: written one by one, aborted at the first address that is not a value cell) and
+   `evaluate([a…])` (`evalMany`): every later evaluate, single or list, returns the same on both models -/
+theorem C03_observational_X (V : View α) (c : Codec τ) (emb : Emb δ) (stem : List Char) (r : List Key) (m : Model δ)
+    (H : Savable c m.cells) (hwf : WF (wbOf V (cmOf m))) (hl : Local (wbOf V (cmOf m)) (semOf V (cmOf m)))
+    (eqv : α → α → Bool) (s : State α) (hinv : Inv (wbOf V (cmOf m)) (semOf V (cmOf m)) s)
+    (hinp : s.inp = inpOf V (cmOf m)) (hbuilt : ∀ k, k < V.n → s.built k = true) (h : List (OpX α)) :
+    (∀ a, a < V.n →
+      (evaluate (wbOf V (cmOf m)) (semOf V (cmOf m)) a
+          (runX (wbOf V (cmOf m)) (semOf V (cmOf m)) eqv (loadedState V (reload c emb stem r m)) h)).1 =
+      (evaluate (wbOf V (cmOf m)) (semOf V (cmOf m)) a
+          (runX (wbOf V (cmOf m)) (semOf V (cmOf m)) eqv s h)).1) ∧
+    (∀ l : List Nat, (∀ a, a ∈ l → a < V.n) →
+      (evalMany (wbOf V (cmOf m)) (semOf V (cmOf m)) l
+          (runX (wbOf V (cmOf m)) (semOf V (cmOf m)) eqv (loadedState V (reload c emb stem r m)) h)).1 =
+      (evalMany (wbOf V (cmOf m)) (semOf V (cmOf m)) l
+          (runX (wbOf V (cmOf m)) (semOf V (cmOf m)) eqv s h)).1) := by
+  have A := (C03_alike V c emb stem r m H hwf hl s hinv hinp hbuilt).runs hwf hl eqv h
+  exact ⟨fun a ha => A.evalVal hwf hl a ha, fun l hl' => A.evalLVal hwf hl l hl'⟩
+
 /- "returns for every saved cell the same value as the original" (the empty history) -/
 theorem C03_saved_values (V : View α) (c : Codec τ) (emb : Emb δ) (stem : List Char) (r : List Key) (m : Model δ)
     (H : Savable c m.cells) (hwf : WF (wbOf V (cmOf m))) (hl : Local (wbOf V (cmOf m)) (semOf V (cmOf m)))
